@@ -34,11 +34,14 @@ import numpy as np
 from lib import fw
 from py2lean import aliasir
 
-MODULE = "AurelVerif.Props.C02"
-THEOREMS = ["AurelVerif.C02." + t for t in (
+MODULE = "AurelVerif.Props.C02"            # D2 + T3 for the generated program (imports Gen/AliasCheck)
+MODULE_CORE = "AurelVerif.Props.C02Core"   # program-independent theorems
+THEOREMS_CORE = ["AurelVerif.C02." + t for t in (
     "check_sound", "check_sound_aliasCheck", "returned_allocated", "check_sound_containers",
-    "check_sound_helpers", "aurel_alias_ok", "history_sound", "aurel_history_sound")]
-LEAN_FILES = ["AurelVerif/Props/C02.lean", "AurelVerif/Lemmas/Heap.lean", "AurelVerif/Model/Heap.lean",
+    "check_sound_helpers", "history_sound")]
+THEOREMS = ["AurelVerif.C02." + t for t in ("aurel_alias_ok", "aurel_history_sound")]
+LEAN_FILES = ["AurelVerif/Props/C02.lean", "AurelVerif/Props/C02Core.lean", "AurelVerif/Lemmas/Heap.lean",
+              "AurelVerif/Model/Heap.lean",
               "AurelVerif/Gen/AliasIR.lean", "AurelVerif/Gen/AliasSumm.lean", "AurelVerif/Gen/AliasCheck.lean"] + [
               "AurelVerif/Gen/AliasChk%d.lean" % k for k in range(aliasir.NCHUNKS)]
 MODFILE = {"maths": "maths.py", "numerical": "numerical.py", "fd": "finitedifference.py", "core": "core.py",
@@ -543,7 +546,15 @@ def run(ctx):
     except Exception as ex:  # noqa
         ctx.obligation("py2lean:aliasir", False, "translator crashed: %r" % ex, kind="translation")
     if info is not None:
+        ctx.prove(MODULE_CORE, THEOREMS_CORE, timeout=2400)
+        n0 = len(ctx.obligs)
         ctx.prove(MODULE, THEOREMS, timeout=2400)
+        # a failing chunk names the functions of the source that no longer pass
+        bad = [r["name"] for r in info["rows"] if not r["fnOK"]]
+        for o in ctx.obligs[n0:]:
+            if not o["ok"] and bad:
+                o["detail"] = ("kernel: checkWith program summaries = false; functions failing the alias check: %s | "
+                               % bad[:12]) + o["detail"][:600]
         ctx.forbidden_scan(LEAN_FILES)
         if ctx.tier == "thorough":
             ctx.leanchecker([MODULE])
